@@ -587,7 +587,7 @@ Section RoundTrip.
 End RoundTrip.
 
 (* ------------------------------------------------------------------ the generated table *)
-Require Import Blots.gen.PrecTable Blots.proofs.PrattTable.
+Require Import Blots.gen.PrecTable Blots.proofs.PrattTable Blots.proofs.PrattFuel.
 
 Lemma impl_infix : forall o,
   ops_get impl_table (binop_rule o) = Some (Infix (if spec_rassoc o then ARight else ALeft), spec_bprec o).
@@ -605,11 +605,11 @@ Proof. destruct o; vm_compute; repeat constructor. Qed.
 Definition parse_impl (fuel : nat) (its : list item) : outcome tres :=
   parse_items impl_table infix_map prefix_map fuel its.
 
-Theorem pratt_spec_roundtrip_all : forall par wn t, wf t = true ->
-  exists n, forall m, n <= m -> parse_impl m (spec_render par wn t) = Ok (Some t).
+Theorem pratt_spec_items : forall par wn t, wf t = true ->
+  Items impl_table infix_map prefix_map (spec_render par wn t) t.
 Proof.
-  intros par wn t H. unfold parse_impl, spec_render.
-  apply roundtrip_fun; try exact H; try (vm_compute; reflexivity).
+  intros par wn t H. unfold spec_render.
+  apply roundtrip_items; try exact H; try (vm_compute; reflexivity).
   - exact impl_infix.
   - exact infix_map_binop_rule.
   - exact spec_prec_pos.
@@ -618,6 +618,18 @@ Proof.
   - vm_compute. repeat constructor.
   - exact spec_level_assoc.
   - exact builtin_names_roundtrip.
+Qed.
+
+Theorem pratt_spec_roundtrip_all : forall par wn t, wf t = true ->
+  exists n, forall m, n <= m -> parse_impl m (spec_render par wn t) = Ok (Some t).
+Proof. intros par wn t H. unfold parse_impl. apply items_sound. apply pratt_spec_items. exact H. Qed.
+
+(* with the concrete fuel of `pratt` (4 * token count + 4): no "large enough" *)
+Theorem pratt_spec_roundtrip_ample : forall par wn t, wf t = true ->
+  pratt_impl (spec_render par wn t) = Ok (Some t).
+Proof.
+  intros par wn t H. unfold pratt_impl, pratt.
+  apply (items_bound impl_table infix_map prefix_map _ t (pratt_spec_items par wn t H)). lia.
 Qed.
 
 (* the minimally and the fully parenthesised rendering under spec_table both recover t; hence they
